@@ -284,6 +284,8 @@ pub struct Matched<'a> {
     pub ancestors: Vec<&'a SNode>,
     /// key node of the entry this node is the value of
     pub key_of_entry: Option<&'a SNode>,
+    /// the node lies strictly inside a (complex) mapping key; the key node is given
+    pub inside_key: Option<&'a SNode>,
 }
 
 /// Align the delivered tree with the model. `Err(reason)` = the two do not have
@@ -298,6 +300,7 @@ pub fn align<'a>(st: &'a SNode, x: &'a X, out: &mut Vec<Matched<'a>>, skipped: &
         anc: &mut Vec<&'a SNode>,
         is_key: bool,
         key_of_entry: Option<&'a SNode>,
+        inside_key: Option<&'a SNode>,
         out: &mut Vec<Matched<'a>>,
         skipped: &mut u64,
     ) -> Result<(), String> {
@@ -315,36 +318,58 @@ pub fn align<'a>(st: &'a SNode, x: &'a X, out: &mut Vec<Matched<'a>>, skipped: &
             (ST::Map(_), XK::Map(_)) => {}
             _ => return Err(format!("node kind differs at {path:?}")),
         }
-        out.push(Matched { st, x, path: path.clone(), is_key, ancestors: anc.clone(), key_of_entry });
+        out.push(Matched { st, x, path: path.clone(), is_key, ancestors: anc.clone(), key_of_entry, inside_key });
+        let child_inside = if is_key { Some(st) } else { inside_key };
         match (&st.value, &x.kind) {
             (ST::Seq(a), XK::Seq(b)) => {
                 anc.push(st);
                 for (i, (s, m)) in a.iter().zip(b.iter()).enumerate() {
                     path.push(i);
-                    go(s, m, path, anc, false, None, out, skipped)?;
+                    go(s, m, path, anc, false, None, child_inside, out, skipped)?;
                     path.pop();
                 }
                 anc.pop();
             }
             (ST::Map(a), XK::Map(b)) => {
-                // distinct key texts of the model
+                // A mapping without merge entries delivers its entries in document order:
+                // align by position (this is what makes complex `? ` keys usable).
+                let no_merge = b.iter().all(|(k, _, _)| k.chain.len() == x.chain.len() + usize::from(k.is_alias_itself));
+                if no_merge {
+                    if a.len() != b.len() {
+                        return Err(format!("mapping has {} delivered entries, model {} at {path:?}", a.len(), b.len()));
+                    }
+                    anc.push(st);
+                    for (i, ((ks, vs), (kx, vx, _))) in a.iter().zip(b.iter()).enumerate() {
+                        path.push(2 * i);
+                        go(ks, kx, path, anc, true, None, child_inside, out, skipped)?;
+                        path.pop();
+                        path.push(2 * i + 1);
+                        go(vs, vx, path, anc, false, Some(ks), child_inside, out, skipped)?;
+                        path.pop();
+                    }
+                    anc.pop();
+                    return Ok(());
+                }
+                // with merges: by key text; complex keys count one each
                 let mut distinct: Vec<&str> = Vec::new();
+                let mut complex = 0usize;
                 for (k, _, _) in b {
                     if let XK::Leaf { value, .. } = &k.kind {
                         if !distinct.contains(&value.as_str()) {
                             distinct.push(value);
                         }
                     } else {
-                        return Err(format!("model has a non-scalar key at {path:?}"));
+                        complex += 1;
                     }
                 }
-                if a.len() != distinct.len() {
-                    return Err(format!("mapping has {} delivered entries, model {} distinct keys at {path:?}", a.len(), distinct.len()));
+                if (complex == 0 && a.len() != distinct.len()) || a.len() > distinct.len() + complex || a.len() < distinct.len() {
+                    return Err(format!("mapping has {} delivered entries, model {} distinct keys at {path:?}", a.len(), distinct.len() + complex));
                 }
                 anc.push(st);
                 for (i, (ks, vs)) in a.iter().enumerate() {
                     let ST::Leaf(kt) = &ks.value else {
-                        return Err(format!("delivered non-scalar key at {path:?}"));
+                        *skipped += 1;
+                        continue;
                     };
                     let cands: Vec<&(X, X, bool)> =
                         b.iter().filter(|(k, _, _)| matches!(&k.kind, XK::Leaf { value, .. } if value == kt)).collect();
@@ -357,10 +382,10 @@ pub fn align<'a>(st: &'a SNode, x: &'a X, out: &mut Vec<Matched<'a>>, skipped: &
                     }
                     let (kx, vx, _) = cands[0];
                     path.push(2 * i);
-                    go(ks, kx, path, anc, true, None, out, skipped)?;
+                    go(ks, kx, path, anc, true, None, child_inside, out, skipped)?;
                     path.pop();
                     path.push(2 * i + 1);
-                    go(vs, vx, path, anc, false, Some(ks), out, skipped)?;
+                    go(vs, vx, path, anc, false, Some(ks), child_inside, out, skipped)?;
                     path.pop();
                 }
                 anc.pop();
@@ -369,5 +394,5 @@ pub fn align<'a>(st: &'a SNode, x: &'a X, out: &mut Vec<Matched<'a>>, skipped: &
         }
         Ok(())
     }
-    go(st, x, &mut Vec::new(), &mut Vec::new(), false, None, out, skipped)
+    go(st, x, &mut Vec::new(), &mut Vec::new(), false, None, None, out, skipped)
 }
